@@ -320,6 +320,21 @@ class Session:
         q, _ = np.linalg.qr(rng.normal(size=(nm, nm)))
         P["evecs"] = q
         P["freqs"] = rng.uniform(0.5, 5, size=nm)
+        # the same values in the in-memory representations callers really hand over: Fortran order (scipy.linalg.eigh returns
+        # Fortran-ordered eigenvectors, pandas blocks are transposed), strided views (a column block of a wider table)
+        self.layouts = {}
+        for k in sorted(P):
+            v = P[k]
+            if isinstance(v, np.ndarray) and v.ndim >= 2 and v.dtype.kind in "fc":
+                u = rng.random()
+                if u < 0.3:
+                    P[k] = np.asfortranarray(v)
+                    self.layouts[k] = "fortran"
+                elif u < 0.5:
+                    big = np.zeros(v.shape[:-1] + (2 * v.shape[-1] + 1,), dtype=v.dtype)
+                    big[..., 1::2] = v
+                    P[k] = big[..., 1::2]
+                    self.layouts[k] = "strided"
 
     def snap(self, d, xu=False, tri=False):
         if tri:
@@ -776,13 +791,21 @@ def recipes():
                 kw["x_snapshots"] = x
             return getattr(m_dyn, klass)(**kw)
 
+        # variants used as *history* on one object: other wave number, other selection (or none), other lag / wave-number range
+        other_cond = (~cond if (cond is not None and (~cond).sum() >= 2) else None) if sel else \
+            (S.pool[f"bool{d}"][0] if klass == "LogDynamics" else S.pool[f"bool{d}"])
+
         def call(obj, o, meth=meth):
             p = J(o, "dyn.csv") if out else ""
             if meth.startswith("relaxation"):
-                r = obj.relaxation(qconst=6.0 if meth == "relaxation" else 4.5, condition=cond, outputfile=p)
+                r = obj.relaxation(qconst=4.5 if meth == "relaxation_other_q" else 6.0,
+                                   condition=other_cond if meth == "relaxation_other_cond" else cond, outputfile=p)
             else:
                 try:
-                    r = obj.sq4(t=0.2, qrange=6.0, condition=cond, outputfile=p)
+                    if meth == "sq4_other":
+                        r = obj.sq4(t=0.4, qrange=4.0, condition=other_cond, outputfile=p)
+                    else:
+                        r = obj.sq4(t=0.2, qrange=6.0, condition=cond, outputfile=p)
                 except ZeroDivisionError:
                     # an origin with an empty mobile / immobile subset: S4 undefined, outside the domain (DESIGN C06, R5)
                     return "undefined: empty mobility subset", {}
@@ -791,7 +814,7 @@ def recipes():
         def thunk(o):
             return call(make(), o)
         return dict(name=f"{klass}.{meth}", par=(d, mode, slow, cage, sel, out), thunk=thunk, make=make, call=call,
-                    methods=["relaxation", "relaxation_other_q"] + (["sq4"] if klass == "Dynamics" else []))
+                    methods=["relaxation", "relaxation_other_q", "relaxation_other_cond"] + (["sq4", "sq4_other"] if klass == "Dynamics" else []))
 
     @reg
     def r_timecorr(S, rng):
